@@ -478,6 +478,13 @@ func (w *responseWriter) WriteMsg(m *dns.Msg) error {
 			}
 			return w.ResponseWriter.WriteMsg(filtered)
 		}
+		if stripped > 0 {
+			// Every AAAA was filtered away. Whatever leaves from here on —
+			// a synthesis, or this emptied answer when the A lookup yields
+			// nothing usable — is no longer the RRset the validator vouched
+			// for, so the upstream's AD must not ride along.
+			filtered.AuthenticatedData = false
+		}
 		m = filtered
 	}
 
